@@ -123,12 +123,34 @@ class MEDDLY::common_dfs_by_events_mt : public saturation_operation {
     }
 
   protected:
+    /**
+        A fired result may sit below the level where it is used, when the
+        (fully-reduced) set forest skips the levels in between. Events at
+        the skipped levels must still be applied: saturate the node as a
+        redundant node up to the given level.
+        Consumes a reference to n, returns a linked node.
+    */
+    inline node_handle saturateSkipped(node_handle n, int level)
+    {
+      if (!resF->isFullyReduced()) return n;
+      if (resF->isTerminalNode(n)) return n;
+      if (resF->getNodeLevel(n) >= level) return n;
+      MEDDLY_DCASSERT(satOp);
+      node_handle s = satOp->saturate(n, level);
+      resF->unlinkNode(n);
+      return s;
+    }
+
+  protected:
     binary_operation* mddUnion;
     binary_operation* mxdIntersection;
     binary_operation* mxdDifference;
 
     pregen_relation* rel;
     forest* relF;
+
+    /// The top-level saturation operation, while compute() runs
+    saturation_by_events_op* satOp;
 
   protected:
     class indexq {
@@ -369,6 +391,7 @@ MEDDLY::common_dfs_by_events_mt::common_dfs_by_events_mt(
     mddUnion = nullptr;
     mxdIntersection = nullptr;
     mxdDifference = nullptr;
+    satOp = nullptr;
     freeqs = 0;
     freebufs = 0;
 
@@ -418,7 +441,9 @@ void MEDDLY::common_dfs_by_events_mt
     printf("done.\n");
   }
   saturation_by_events_op* so = new saturation_by_events_op(this, argF, resF);
+  satOp = so;
   so->compute(a, c);
+  satOp = nullptr;
 
   // Cleanup
   while (freeqs) {
@@ -555,7 +580,8 @@ void MEDDLY::forwd_dfs_by_events_mt::saturateHelper(unpacked_node& nb)
         unsigned j = Rp->index(jz);
         if (-1==nb.down(j)) continue;  // nothing can be added to this set
 
-        node_handle rec = recFire(nb.down(i), Rp->down(jz));
+        node_handle rec = saturateSkipped(
+            recFire(nb.down(i), Rp->down(jz)), nb.getLevel()-1);
 
         if (rec == 0) continue;
         if (rec == nb.down(j)) {
@@ -647,7 +673,7 @@ MEDDLY::node_handle MEDDLY::forwd_dfs_by_events_mt::recFire(
     // that's an important special case that we can handle quickly.
 
     for (unsigned i=0; i<rSize; i++) {
-      nb->setFull(i, recFire(A->down(i), mxd));
+      nb->setFull(i, saturateSkipped(recFire(A->down(i), mxd), rLevel-1));
       // nb->d_ref(i) = recFire(A->down(i), mxd);
     }
 
@@ -681,7 +707,8 @@ MEDDLY::node_handle MEDDLY::forwd_dfs_by_events_mt::recFire(
         // ok, there is an i->j "edge".
         // determine new states to be added (recursively)
         // and add them
-        node_handle newstates = recFire(A->down(i), Rp->down(jz));
+        node_handle newstates = saturateSkipped(
+            recFire(A->down(i), Rp->down(jz)), rLevel-1);
         if (0==newstates) continue;
         if (0==nb->down(j)) {
           nb->setFull(j, newstates);
@@ -796,7 +823,8 @@ void MEDDLY::bckwd_dfs_by_events_mt::saturateHelper(unpacked_node& nb)
           if (0==expl->data[j]) continue;
           if (0==nb.down(j))       continue;
           // We have an i->j edge to explore
-          node_handle rec = recFire(nb.down(j), Rp->down(jz));
+          node_handle rec = saturateSkipped(
+              recFire(nb.down(j), Rp->down(jz)), nb.getLevel()-1);
 
           if (0==rec) continue;
           if (rec == nb.down(i)) {
@@ -880,7 +908,7 @@ MEDDLY::node_handle MEDDLY::bckwd_dfs_by_events_mt::recFire(node_handle mdd,
     // Skipped levels in the MXD,
     // that's an important special case that we can handle quickly.
     for (unsigned i=0; i<rSize; i++) {
-      nb->setFull(i, recFire(A->down(i), mxd));
+      nb->setFull(i, saturateSkipped(recFire(A->down(i), mxd), rLevel-1));
       // nb->d_ref(i) = recFire(A->down(i), mxd);
     }
   } else {
@@ -913,7 +941,8 @@ MEDDLY::node_handle MEDDLY::bckwd_dfs_by_events_mt::recFire(node_handle mdd,
         // ok, there is an i->j "edge".
         // determine new states to be added (recursively)
         // and add them
-        node_handle newstates = recFire(A->down(j), Rp->down(jz));
+        node_handle newstates = saturateSkipped(
+            recFire(A->down(j), Rp->down(jz)), rLevel-1);
         if (0==newstates) continue;
         if (0==nb->down(i)) {
           nb->setFull(i, newstates);
